@@ -379,3 +379,4 @@ func init() {
 		}
 	}
 }
+
